@@ -626,6 +626,33 @@ def _eng_cases(rng, tier):
         out.append({"kind": "engine", "line": "", "cfg": cfg, "script": [list(x) for x in script], "evs": evs, "qs": qs, "qtexts": qtexts,
                     "mem_keys": mem_keys,
                     "show": f"engine topk-unflushed-shard {cfg}: {len(evs)} events, " + "; ".join(qtexts)})
+    # targeted: many shards, only a few of them hold flushed segments; the smallest keys arrive for fresh contexts, most
+    # of which live on shards that have NO segment at all (no entry in any zone plan) and stay in memory: ordered pages
+    # with OFFSET must still be cut from those shards' memory
+    for i in range(2 if tier == "quick" else 40):
+        cfg = dict(fill_factor=2, event_per_zone=2, shards=rng.choice([6, 8]), segments_per_merge=2)
+        script = [("cmd", f"DEFINE t FIELDS {_E.FIELDS}")]
+        evs = []
+        for cx in range(3):
+            for j in range(rng.range(16, 24)):
+                k = 1000 + 40 * cx + j
+                script.append(("cmd", f'STORE t FOR c{cx} PAYLOAD {{"k": {k}, "g": "x"}}')); evs.append({"k": k})
+        script += [("cmd", "FLUSH"), ("quiesce",)]
+        mem_keys = []
+        nh = rng.range(3, 5)
+        for h in range(nh):
+            for j in range(2):
+                k = 1 + 2 * h + j
+                mem_keys.append(k)
+                script.append(("cmd", f'STORE t FOR h{h}x{rng.below(1000)} PAYLOAD {{"k": {k}, "g": "x"}}')); evs.append({"k": k})
+        qs, qtexts = [], []
+        for (n_, m_) in ((1, 1), (2, 1), (1, 3), (3, 0), (2, 2 * nh - 2)):
+            qs.append(("ord", False, n_, m_, None)); qtexts.append(f"QUERY t ORDER BY k LIMIT {n_} OFFSET {m_}")
+        script += [("quiesce",), ("cmd", "QUERY t")] + _qblock(qtexts)
+        script += [("cmd", "FLUSH"), ("quiesce",), ("cmd", "QUERY t")] + _qblock(qtexts)
+        out.append({"kind": "engine", "line": "", "cfg": cfg, "script": [list(x) for x in script], "evs": evs, "qs": qs, "qtexts": qtexts,
+                    "mem_keys": mem_keys,
+                    "show": f"engine topk-unflushed-empty-shard {cfg}: {len(evs)} events, " + "; ".join(qtexts)})
     return out
 
 
